@@ -1,6 +1,6 @@
 (* C04 -- proofs about the model of the two inversion formalisms (Model/C04.v), at ROps (real numbers). *)
 From Coq Require Import ZArith Reals Lra Lia List Bool Arith Permutation.
-From PAV Require Import Base.Res Base.NumOps Base.Sum Model.C03 Model.C04.
+From PAV Require Import Base.Res Base.NumOps Base.Sum Model.C03 Model.C04 Model.C04Lib.
 Import ListNotations.
 Local Open Scope R_scope.
 
@@ -79,7 +79,6 @@ Lemma rowmajor_lt (P n a b : nat) : (a < n)%nat -> (b < P)%nat -> (a * P + b < n
 Proof. intros Ha Hb. assert ((a + 1) * P <= n * P)%nat by (apply Nat.mul_le_mono_r; lia). lia. Qed.
 
 (* ================================================================== matrices as nested lists *)
-Definition shape (n p : nat) (F : @mat ROps) : Prop := length F = n /\ forall a, (a < n)%nat -> length (nth a F []) = p.
 
 Lemma mget_R (M : @mat ROps) i j : mget M i j = nth j (nth i M []) 0.
 Proof. reflexivity. Qed.
@@ -268,9 +267,6 @@ Proof.
 Qed.
 
 (* ================================================================== curvature_matrix_mirrored_from *)
-Definition mir (C : @mat ROps) (a b : nat) : R :=
-  let lo := Nat.min a b in let hi := Nat.max a b in
-  if Reqb (mget C lo hi) 0 then mget C hi lo else mget C lo hi.
 
 Lemma shape_mirror_step n (C M : @mat ROps) ij : shape n n M -> shape n n (@mirror_step ROps C M ij).
 Proof.
@@ -468,11 +464,6 @@ Proof.
 Qed.
 
 (* the matrix an encoding stands for, and the half matrix preload rows stand for *)
-Definition E (e : @enc ROps) (d p : nat) : R := sumR (hits p (enc_row e d)).
-Definition U (rws : list (list (nat * R))) (d0 d1 : nat) : R := sumR (hits d1 (nth d0 rws [])).
-Definition enc_ok (e : @enc ROps) (P : nat) : Prop := forall d pw, In pw (enc_row e d) -> (fst pw < P)%nat.
-Definition rows_ok (rws : list (list (nat * R))) (n : nat) : Prop :=
-  forall d0 iw, In iw (nth d0 rws []) -> (fst iw < n)%nat.
 
 Lemma mget_enc_matrix e n P d p : (d < n)%nat -> (p < P)%nat -> mget (@enc_matrix ROps e n P) d p = E e d p.
 Proof.
@@ -537,8 +528,6 @@ Proof.
   apply rowmajor_lt; [apply (H0 _ _ Hp0) | apply (H1 _ _ Hp1)].
 Qed.
 
-Definition G (rws : list (list (nat * R))) e0 e1 n a b : R :=
-  sumR (map (fun d0 => sumR (map (fun d1 => E e0 d0 a * U rws d0 d1 * E e1 d1 b) (seq 0 n))) (seq 0 (length rws))).
 
 Theorem off_preload_spec pre idx lens e0 P0 e1 P1 a b n :
   let rws := rows_of (combine idx pre) lens in
@@ -688,3 +677,123 @@ Proof.
 Qed.
 Lemma shape_curv_preload pre idx lens e P : shape P P (@curv_preload ROps pre idx lens e P).
 Proof. apply shape_reshape. Qed.
+
+(* ---- data_vector_via_w_tilde_data_imaging_from ---- *)
+Lemma sumR_indicator_scal {A} (l : list A) (c : A -> bool) (f : A -> R) x :
+  sumR (map (fun y => if c y then f y * x else 0) l) = sumR (map (fun y => if c y then f y else 0) l) * x.
+Proof. induction l as [|y l IH]; cbn [map sumR]; [ring|]. rewrite IH. destruct (c y); ring. Qed.
+Theorem dv_wtd_spec (wd : list R) e P p : enc_ok e P -> (p < P)%nat ->
+  nth p (@dv_wtd ROps wd e P) 0 = sumR (map (fun d => E e d p * nth d wd 0) (seq 0 (length wd))).
+Proof.
+  intros He Hp. unfold dv_wtd. rewrite scatter_gather_zeros.
+  - rewrite hits_flat_map. apply sumR_map_ext. intros d _.
+    rewrite (hits_map p (fun pw : nat * R => fst pw) (fun pw : nat * R => mul ROps (snd pw) (@nthT ROps wd d))).
+    ropen. rewrite nthT_R. rewrite (sumR_indicator_scal _ (fun pw => Nat.eqb (fst pw) p) snd).
+    unfold E. now rewrite hits_as_map.
+  - apply Forall_forall. intros en Hin. apply in_flat_map in Hin. destruct Hin as [d [_ Hin]].
+    apply in_map_iff in Hin. destruct Hin as [pw [<- Hpw]]. cbn [fst]. now apply (He d).
+Qed.
+Lemma dv_wtd_length (wd : list R) e P : length (@dv_wtd ROps wd e P) = P.
+Proof. unfold dv_wtd. rewrite (@scatter_length ROps). unfold zeros. apply repeat_length. Qed.
+
+(* ---- curvature_matrix_off_diags_via_mapper_and_linear_func_curvature_vector_from ---- *)
+Theorem off_mapper_func_spec e P (cw : @mat ROps) (frames : list (list (nat * R))) a l :
+  enc_ok e P -> (a < P)%nat -> (l < ncols cw)%nat ->
+  mget (@off_mapper_func ROps e P cw frames) a l =
+  sumR (map (fun d0 => E e d0 a * sumR (map (fun ik => snd ik * mget cw (fst ik) l) (nth d0 frames [])))
+            (seq 0 (length (e_dw e)))).
+Proof.
+  intros He Ha Hl. unfold off_mapper_func. rewrite mget_reshape by auto. rewrite scatter_gather_zeros.
+  - rewrite hits_flat_map. apply sumR_map_ext. intros d0 _. rewrite hits_flat_map.
+    unfold E. rewrite hits_as_map. rewrite <- sumR_map_mul_l. apply sumR_map_ext. intros pw Hpw.
+    rewrite hits_flat_map.
+    transitivity (sumR (map (fun ik : nat * R => if Nat.eqb (fst pw) a then snd pw * (snd ik * mget cw (fst ik) l) else 0) (nth d0 frames []))).
+    + apply sumR_map_ext. intros ik _.
+      rewrite (hits_map (a * ncols cw + l) (fun l' => (fst pw * ncols cw + l')%nat)
+                        (fun l' => mul ROps (mul ROps (snd pw) (@mget ROps cw (fst ik) l')) (snd ik))).
+      transitivity (sumR (map (fun l' => if Nat.eqb l' l then (if Nat.eqb (fst pw) a then snd pw * (snd ik * mget cw (fst ik) l') else 0) else 0) (seq 0 (ncols cw)))).
+      * apply sumR_map_ext. intros l' Hl'. apply in_seq in Hl'. rewrite rowmajor_eqb by lia. ropen.
+        destruct (Nat.eqb (fst pw) a); destruct (Nat.eqb l' l); cbn [andb]; try reflexivity. ring.
+      * rewrite sumR_seq_pick by lia. reflexivity.
+    + rfix. destruct (Nat.eqb (fst pw) a).
+      * apply (sumR_map_scal (fun ik : nat * R => snd ik * mget cw (fst ik) l) (snd pw)).
+      * rewrite sumR_map_const0. symmetry. apply Rmult_0_l.
+  - apply Forall_forall. intros en Hin. apply in_flat_map in Hin. destruct Hin as [d [_ Hin]].
+    apply in_flat_map in Hin. destruct Hin as [pw [Hpw Hin]].
+    apply in_flat_map in Hin. destruct Hin as [ik [_ Hin]].
+    apply in_map_iff in Hin. destruct Hin as [l' [<- Hl']]. apply in_seq in Hl'. cbn [fst].
+    apply rowmajor_lt; [now apply (He d) | lia].
+Qed.
+Lemma shape_off_mapper_func e P (cw : @mat ROps) frames : shape P (ncols cw) (@off_mapper_func ROps e P cw frames).
+Proof. apply shape_reshape. Qed.
+
+(* ---- mapped_reconstructed_data_via_image_to_pix_unique_from ---- *)
+Theorem mapped_via_unique_spec e (r : list R) d : enc_ok e (length r) -> (d < length (e_du e))%nat ->
+  nth d (@mapped_via_unique ROps e r) 0 = sumR (map (fun p => E e d p * nth p r 0) (seq 0 (length r))).
+Proof.
+  intros He Hd. unfold mapped_via_unique. rewrite nth_map_seq by exact Hd. rewrite sumT_sumR.
+  transitivity (sumR (map (fun pw : nat * R => nth (fst pw) r 0 * snd pw) (enc_row e d))).
+  - apply sumR_map_ext. intros pw _. ropen. rewrite nthT_R. ring.
+  - rewrite (group_by_index _ (fun p => nth p r 0) (length r)) by (intros; now apply (He d)).
+    apply sumR_map_ext. intros p _. unfold E. ring.
+Qed.
+(* ---- mapped_reconstructed_data_via_mapping_matrix_from ---- *)
+Theorem mapped_via_matrix_spec (B : @mat ROps) (r : list R) i : (i < length B)%nat ->
+  nth i (mapped_via_matrix B r) 0 = sumR (map (fun j => mget B i j * nth j r 0) (seq 0 (length r))).
+Proof.
+  intros Hi. unfold mapped_via_matrix. rewrite nth_map_seq by exact Hi. rewrite sumT_sumR.
+  apply sumR_map_ext. intros j _. ropen. rewrite nthT_R. ring.
+Qed.
+
+(* ---- the preload rows stand for the upper triangle (diagonal halved) of the dense overlap matrix ---- *)
+Theorem preload_rows_U noise K nfs d0 d1 : (d0 < length nfs)%nat -> (d1 < length nfs)%nat ->
+  U (@preload_rows ROps noise K nfs) d0 d1 =
+  if Nat.ltb d0 d1 then Wv noise K nfs d0 d1 else if Nat.eqb d0 d1 then Wv noise K nfs d0 d0 / 2 else 0.
+Proof.
+  intros H0 H1. unfold U, preload_rows. rewrite nth_map_seq by exact H0.
+  rewrite hits_flat_map.
+  transitivity (sumR (map (fun i1 => if Nat.eqb i1 d1 then (if Nat.eqb d0 i1 then Wv noise K nfs d0 i1 / 2 else Wv noise K nfs d0 i1) else 0)
+                          (seq d0 (length nfs - d0)))).
+  - apply sumR_map_ext. intros i1 _. fold (Wv noise K nfs d0 i1). runfold.
+    destruct (Reqb (if Nat.eqb d0 i1 then Wv noise K nfs d0 i1 / 2 else Wv noise K nfs d0 i1) 0) eqn:Ez.
+    + rbool. unfold hits. cbn. destruct (Nat.eqb i1 d1); lra.
+    + unfold hits. cbn [filter fst]. destruct (Nat.eqb i1 d1); cbn; lra.
+  - destruct (Nat.ltb d0 d1) eqn:L.
+    + apply Nat.ltb_lt in L. rewrite sumR_seq_pick by lia.
+      destruct (Nat.eqb d0 d1) eqn:X; [apply Nat.eqb_eq in X; lia | reflexivity].
+    + apply Nat.ltb_ge in L. destruct (Nat.eqb d0 d1) eqn:X.
+      * apply Nat.eqb_eq in X. subst d1. rewrite sumR_seq_pick by lia. now rewrite Nat.eqb_refl.
+      * apply Nat.eqb_neq in X. apply sumR_seq_pick_none. lia.
+Qed.
+Lemma preload_rows_ok noise K nfs : rows_ok (@preload_rows ROps noise K nfs) (length nfs).
+Proof.
+  intros d0 iw Hin. unfold preload_rows in Hin.
+  destruct (lt_dec d0 (length nfs)) as [H|H].
+  - rewrite nth_map_seq in Hin by exact H. apply in_flat_map in Hin. destruct Hin as [i1 [Hi1 Hin]].
+    apply in_seq in Hi1. match type of Hin with In _ (if ?c then _ else _) => destruct c end; [contradiction|].
+    destruct Hin as [<-|[]]. cbn. lia.
+  - rewrite nth_map_seq_ge in Hin by lia. contradiction.
+Qed.
+Lemma preload_rows_length noise K nfs : length (@preload_rows ROps noise K nfs) = length nfs.
+Proof. unfold preload_rows. now rewrite map_length, seq_length. Qed.
+Lemma mget_wt_dense noise K nfs d0 d1 : (d0 < length nfs)%nat -> (d1 < length nfs)%nat ->
+  mget (@wt_dense ROps noise K nfs) d0 d1 = if Nat.leb d0 d1 then Wv noise K nfs d0 d1 else Wv noise K nfs d1 d0.
+Proof.
+  intros H0 H1. rewrite mget_R. unfold wt_dense. rewrite nth_map_seq by exact H0. rewrite nth_map_seq by exact H1. reflexivity.
+Qed.
+(* U + U^T of the preload is the dense matrix of w_tilde_curvature_imaging_from: every non-zero entry is kept *)
+Theorem preload_represents_dense noise K nfs d0 d1 : (d0 < length nfs)%nat -> (d1 < length nfs)%nat ->
+  U (@preload_rows ROps noise K nfs) d0 d1 + U (@preload_rows ROps noise K nfs) d1 d0 = mget (@wt_dense ROps noise K nfs) d0 d1.
+Proof.
+  intros H0 H1. rewrite !preload_rows_U, mget_wt_dense by assumption.
+  destruct (lt_eq_lt_dec d0 d1) as [[L|Eq]|L].
+  - assert (Nat.ltb d0 d1 = true) as -> by (apply Nat.ltb_lt; lia).
+    assert (Nat.ltb d1 d0 = false) as -> by (apply Nat.ltb_ge; lia).
+    assert (Nat.eqb d1 d0 = false) as -> by (apply Nat.eqb_neq; lia).
+    assert (Nat.leb d0 d1 = true) as -> by (apply Nat.leb_le; lia). lra.
+  - subst d1. rewrite Nat.ltb_irrefl, Nat.eqb_refl, Nat.leb_refl. lra.
+  - assert (Nat.ltb d0 d1 = false) as -> by (apply Nat.ltb_ge; lia).
+    assert (Nat.ltb d1 d0 = true) as -> by (apply Nat.ltb_lt; lia).
+    assert (Nat.eqb d0 d1 = false) as -> by (apply Nat.eqb_neq; lia).
+    assert (Nat.leb d0 d1 = false) as -> by (apply Nat.leb_gt; lia). lra.
+Qed.
